@@ -20,9 +20,13 @@ Notes that justify the oracles
   concave in the number of tied points moved, and a class holding only copies of a value that also occurs in its neighbour
   can be merged, freeing a class that strictly lowers the cost elsewhere), so the optimum over index-level partitions of
   the sorted sample equals the optimum over value-level partitions and is a lower bound for any labelling.  The code's
-  DP evaluates a class cost as sum(v^2) - sum(v)^2/m in float64; its forward error is <= (3m+3) eps sum(v^2) per class,
-  so the partition it picks can exceed the true optimum by at most 2 (3n+3+k) eps64 sum(v^2): tolerance
-  (8n+16) eps64 sum(v^2) + 1e-9 optimum.
+  DP evaluates the cost of a class as sum(d^2) - sum(d)^2/m in float64 on d = v - (largest member of the class)
+  (/repo b0d9b84).  With m members and range R: sum(d^2) <= SSD + m R^2 and SSD >= R^2/2, so the forward error
+  (3m+5) eps sum(d^2) is at most delta = (3n+5)(2n+1) eps64 RELATIVE to the class's own cost, whatever the offset of the
+  data.  Every partition is therefore costed within a factor (1 +- delta); a non-constant class can never evaluate to <= 0
+  (no empty classes, so the break extraction returns the DP's partition), and the partition returned costs at most
+  (1+delta)/(1-delta) times the optimum.  Tolerance: relative 4 delta + 4 k eps64 + 1e-12 (1.3e-11 for 100 cells,
+  1.4e-8 for 1600); if that exceeded 1e-6 (beyond ~10^4 cells) the assertion would be skipped and counted as ambiguous.
 """
 import contextlib
 import io
@@ -47,19 +51,21 @@ RULE = ("Generator: rasters <= 10x10 (quick) / up to 30x30, 40x40 for natural_br
         "band (zero when the arithmetic is exact); exact-rational percentile interval; Jenks optimum by an independent float64 DP (brute force below 14 values) "
         "with a forward error bound. Non-trivial: data-driven classifiers - at least k distinct finite values; reclassify - a cell on a bin boundary or a "
         "non-finite cell, and >= 2 different bins hit; binary - a listed and an unlisted finite cell; sweep cases are all non-trivial. Distinct by SHA-1 of "
-        "the case (random) or enumeration index (sweep). Recorded defect classes are avoided by construction (counted in excluded_known) and probed by the "
-        "four tiny defect_* shards.")
+        "the case (random) or enumeration index (sweep). The classes of the six defects this check found (all repaired in /repo) are part of the main generators, "
+        "labelled (k_float_arange=..., narrow_int_neighbour_gap_gt_dtype_max, sample=..., large_offset_close_values), and pinned by the four "
+        "regress_* shards.")
 ASSUMPTIONS = ["NumPy backend only (Dask/CuPy equivalence is C01)",
                "equal_interval: at least two distinct finite values (max > min) and class width >= 64 ulp of the largest magnitude",
                "quantile / natural_breaks: at least one finite cell",
                "bin lists ascending, finite except an optional +inf tail; new_values finite; binary value lists finite and non-empty",
                "magnitudes <= 1e9 so every integer/float involved is exact in float64",
+               "natural_breaks optimality: distinct values differ by >= 1e-150 (their squared difference does not underflow in float64)",
                "reclassify output is float32 by documented convention: a new value is compared after rounding to float32"]
 BUDGET_S = {"quick": 200, "thorough": 1200}
 
 DTYPES6 = ["float64", "float32", "int64", "int32", "int16", "uint8"]
 SWEEP_DTYPES = ["float64", "float32", "int64", "int32", "int16", "uint16"]
-BAD_K_SHARD_KS = [23, 31, 36, 58]
+BAD_K_SHARD_KS = [23, 31, 36, 51, 58, 62, 97]
 
 
 def _da(a):
@@ -105,7 +111,7 @@ def _common_labels(r, sub, a, fin):
         r.label("single_row_or_col")
 
 
-def _nan_rule(r, sub, a, fin, out, unlabelled_ok=None, maxcell_bucket=None, where_fn=None):
+def _nan_rule(r, sub, a, fin, out, unlabelled_ok=None, where_fn=None):
     """non-finite => NaN ; finite => labelled (except where unlabelled_ok)."""
     if out.shape != a.shape:
         r.fail(sub + ".shape", "output shape %s for input %s" % (out.shape, a.shape))
@@ -126,8 +132,6 @@ def _nan_rule(r, sub, a, fin, out, unlabelled_ok=None, maxcell_bucket=None, wher
         if where_fn is not None:
             where = where_fn(v)
         b = "%s.finite_unlabelled[%s]" % (sub, where)
-        if maxcell_bucket and where == "max cell":
-            b = maxcell_bucket
         r.fail(b, "finite cell (%d,%d)=%r got NaN" % (y, x, v))
     return True
 
@@ -380,8 +384,8 @@ def body_equal_interval(case, ctx):
 # ====================================================================== quantile
 
 def narrow_int_gap_overflow(a):
-    """Two neighbouring sorted values further apart than the raster's own integer dtype can hold: numpy.percentile forms
-    b - a in that dtype (wraps around).  Only used to steer generators / name the bucket of this recorded defect class."""
+    """Two neighbouring sorted values further apart than the raster's own integer dtype can hold (int16: > 32767): a
+    percentile interpolated in that dtype would wrap around.  Class label only (a defect repaired in /repo 523b20b)."""
     if a.dtype.kind != "i" or a.dtype.itemsize > 4:
         return False
     v = np.sort(a.ravel().astype("int64"))
@@ -394,40 +398,23 @@ def body_quantile(case, ctx):
     k = case["k"]
     fin = _finite_mask(a)
     r = R()
-    if "k_steered_from" in case:
-        r.excl += 1
-    if case.get("steered_narrow_int"):
-        r.excl += 1
     _common_labels(r, "quantile", a, fin)
     vals = a[fin]
     if vals.size == 0:
         r.label("out_of_domain")
         return r
     uniq = np.unique(vals)
+    # classes in which defects were found and repaired (/repo 3ae305b, 523b20b): labelled so that the evidence shows them
     pclass = O.pvec_class(k)
-    maxcell_bucket = None
-    if pclass == "last<100":
-        maxcell_bucket = "quantile.max_cell_unlabelled@float_percentile_vector_ends_below_100"
-    elif pclass == "k+1":
-        maxcell_bucket = "quantile.max_cell_label_read_past_new_values@float_percentile_vector_has_k+1_entries"
-    narrow = narrow_int_gap_overflow(a)
-    if narrow:
-        r.label("narrow_int_gap_overflow")
+    r.label("k_float_arange=" + {"ok": "k_entries_to_100", "last<100": "ends_below_100", "k+1": "k+1_entries"}.get(pclass, pclass))
+    if narrow_int_gap_overflow(a):
+        r.label("narrow_int_neighbour_gap_gt_dtype_max")
     out = np.asarray(_quiet_call(quantile, _da(a), k=k).values)
-    if not _nan_rule(r, "quantile", a, fin, out, maxcell_bucket=maxcell_bucket):
+    if not _nan_rule(r, "quantile", a, fin, out):
         return r
-    ismax = fin & (a == uniq[-1])
-    if maxcell_bucket:
-        # the defect class only concerns the cells holding the maximum: judge them under the class's own bucket
-        r2 = R()
-        _data_driven_invariants(r2, "quantile", a, ismax, out, k)
-        for b, m in r2.fails:
-            r.fail(maxcell_bucket, "[%s] %s" % (b, m))
-        _data_driven_invariants(r, "quantile", a, fin, out, k, skip=ismax)
-    else:
-        _data_driven_invariants(r, "quantile", a, fin, out, k)
+    _data_driven_invariants(r, "quantile", a, fin, out, k)
     r.nt = len(uniq) >= k
-    r.label("k=%s" % (k if k <= 9 else "10+"), "k<=distinct" if len(uniq) >= k else "k>distinct", "pvec=" + pclass)
+    r.label("k=%s" % (k if k <= 9 else "10+"), "k<=distinct" if len(uniq) >= k else "k>distinct")
 
     srt = sorted(Fr(v.item()) for v in vals)
     brk = O.exact_percentiles(srt, k, f32_input=(a.dtype == np.float32))
@@ -445,15 +432,9 @@ def body_quantile(case, ctx):
             on_break = True
         bad = cells & ~np.isnan(of) & ((of < lo) | (of > hi))
         if bad.any():
-            msg = ("value %r labelled %r, allowed [%d,%d]: k=%d, n=%d finite, exact percentiles %s"
+            r.fail("quantile.band[label %s percentile interval]" % ("below" if of[bad][0] < lo else "above"),
+                   "value %r labelled %r, allowed [%d,%d]: k=%d, n=%d finite, exact percentiles %s"
                    % (u, of[bad][0], lo, hi, k, len(srt), [float(q) for q, _ in brk][:12]))
-            if maxcell_bucket and u == uniq[-1]:
-                r.fail(maxcell_bucket, "[quantile.band] " + msg)
-            else:
-                if narrow:
-                    r.fail("quantile.band@neighbour_gap_exceeds_int_dtype_max_overflows_in_numpy_percentile", msg)
-                else:
-                    r.fail("quantile.band[label %s percentile interval]" % ("below" if of[bad][0] < lo else "above"), msg)
     if on_break:
         r.label("value_on_interior_break")
     return r
@@ -491,8 +472,6 @@ def body_natural_breaks(case, ctx):
     ns_mode = case.get("num_sample", "default")
     fin = _finite_mask(a)
     r = R()
-    if "ns_steered_from" in case:
-        r.excl += 1
     _common_labels(r, "natural_breaks", a, fin)
     vals = a[fin]
     if vals.size == 0:
@@ -501,29 +480,12 @@ def body_natural_breaks(case, ctx):
     kw = {}
     if ns_mode != "default":
         kw["num_sample"] = ns_mode           # None or an int
+    # sample=sample_without_finite_value / sample_has_lt_k_unique_and_misses_max are classes in which defects were found
+    # and repaired (/repo 2c536e4, 0cce1be); they are ordinary cases now, labelled so that the evidence shows them
     sclass = nb_sample_class(a, k, 20000 if ns_mode == "default" else ns_mode)
     r.label("sample=" + sclass)
     out = np.asarray(_quiet_call(natural_breaks, _da(a), k=k, **kw).values)
     uniq = np.unique(vals)
-    if sclass == "sample_without_finite_value":
-        # recorded defect class: bins are empty, every label is read from outside the bins array
-        r2 = R()
-        if _nan_rule(r2, "natural_breaks", a, fin, out):
-            _data_driven_invariants(r2, "natural_breaks", a, fin, out, k)
-        for b, m in r2.fails:
-            r.fail("natural_breaks.garbage_labels@sample_without_finite_value", "[%s] %s" % (b, m))
-        return r
-    mb = "natural_breaks.finite_unlabelled@sample_lt_k_unique_last_bin_is_sample_max" if sclass == "sample_has_lt_k_unique_and_misses_max" else None
-    if mb:
-        above = fin & (a > _nb_sample(a, ns_mode).max())
-        r2 = R()
-        ok = _nan_rule(r2, "natural_breaks", a, fin, out)
-        for b, m in r2.fails:
-            r.fail(mb if "finite_unlabelled" in b else b, m)
-        if not ok:
-            return r
-        _data_driven_invariants(r, "natural_breaks", a, fin, out, k, skip=above)
-        return r
     if not _nan_rule(r, "natural_breaks", a, fin, out):
         return r
     _data_driven_invariants(r, "natural_breaks", a, fin, out, k)
@@ -545,32 +507,30 @@ def body_natural_breaks(case, ctx):
         if abs(bf - opt) > 1e-9 * max(bf, opt) + 1e-300:
             r.fail("oracle_selfcheck.jenks_dp_vs_brute_force", "DP %r brute force %r on %r k=%d" % (opt, bf, srt.tolist(), k))
     got = O.partition_ssd(v64, of[fin])
-    tol = (8 * n + 16) * O.EPS64 * float((v64 * v64).sum()) + 1e-9 * opt
     r.label("opt=0" if opt == 0 else "opt>0")
-    # Recorded defect class: when the error bound of the DP's one-pass variance reaches the cost of the cheapest two-value
-    # class (min gap^2 / 2), a class of distinct values can evaluate to <= 0, the DP leaves classes empty and the break
-    # extraction then indexes data[-1]: non-ascending bins.  Outside this regime the DP cannot prefer an empty class, so the
-    # realised partition is the DP's and the forward bound applies.  Inside it the optimality assertion is skipped (counted),
-    # except in the dedicated probe.
+    # Forward bound of the code's DP (see module docstring): every class cost is evaluated with relative error <= delta,
+    # delta = (3n+5)(2n+1) eps64, so the partition it returns costs at most (1 + ~2 delta) times the optimum.
+    delta = (3 * n + 5) * (2 * n + 1) * O.EPS64
+    rel = 4 * delta + 4 * k * O.EPS64 + 1e-12
+    # the class in which the unshifted one-pass variance cancelled (defect repaired in /repo b0d9b84): its absolute error
+    # bound (8n+16) eps sum(v^2) reaches the cost of the cheapest two-value class.  Asserted like any other case.
     mingap = float(np.diff(uniq.astype("float64")).min()) if len(uniq) > 1 else np.inf
-    if tol >= mingap * mingap / 2:
-        r.label("cancellation_regime")
-        if not case.get("probe_cancellation"):
-            r.excl += 1
-            return r
-        if got > opt + tol:
-            r.fail("natural_breaks.suboptimal_partition@one_pass_variance_cancels[error bound >= cheapest two-value class]",
-                   "within-class SSD %r > optimum %r (+tol %.3g); k=%d values %s labels %s"
-                   % (got, opt, tol, k, v64.tolist()[:20], of[fin].astype(int).tolist()[:20]))
+    if (8 * n + 16) * O.EPS64 * float((v64 * v64).sum()) >= mingap * mingap / 2:
+        r.label("large_offset_close_values")
+    if rel > 1e-6 or mingap < 1e-150:
+        # the shifted bound itself is not small (n beyond ~10^4 cells), or a squared gap underflows in float64 (the bound
+        # assumes no underflow; generators never produce such values): optimality not decidable to float accuracy
+        r.label("bound_not_small")
+        r.amb += 1
         return r
     nonf32 = bool(a.dtype.kind != "f" or a.dtype == np.float64) and bool((v64.astype("float32").astype("float64") != v64).any())
     r.label("optimality_asserted", "optimality_asserted[%s]" % ("nonf32 values" if nonf32 else "f32-representable"))
     if nonf32 and opt > 0:
         r.label("optimality_asserted[nonf32 values, opt>0]")
-    if got > opt + tol:
+    if got > opt * (1 + rel):
         r.fail("natural_breaks.suboptimal_partition[%s]" % ("values not float32-representable" if nonf32 else "float32-representable values"),
-               "within-class SSD %r > optimum %r (+tol %.3g); k=%d n=%d labels of sorted values %s"
-               % (got, opt, tol, k, n, of[fin][np.argsort(v64, kind="stable")].astype(int).tolist()[:60]))
+               "within-class SSD %r > optimum %r (relative tolerance %.3g); k=%d n=%d labels of sorted values %s"
+               % (got, opt, rel, k, n, of[fin][np.argsort(v64, kind="stable")].astype(int).tolist()[:60]))
     return r
 
 
@@ -587,18 +547,21 @@ BODIES = {"binary": body_binary, "reclassify": body_reclassify, "reclass_sweep":
 
 PAL_QUARTERS = [i / 4.0 for i in range(-12, 21)]
 PAL_NONF32 = [round(0.1 * i, 10) for i in range(-5, 25) if i % 5] + [3.3333333333, 1.0 / 3, 0.001, 2.3e-5, 7.7]
-# large, far apart (the float64 one-pass variance of the Jenks DP cancels catastrophically for large close values - a recorded
-# defect class; these pools stay outside it by construction so that optimality remains assertable on non-float32 data)
 PAL_NONF32BIG = [12345.6789, 1000000.123, 54321.001, 250000.7, 777.7, 99999.99, -33333.3, 500000.05, 0.1, -765432.1, 3456.789]
-PAL_INTBIG = [0, 16777217, -16777217, 33554433, -33554433, 50331649, 67108865, 83886081, 100000001, 123456789, -50000001]
+# large values next to close ones (1000000.001 / 1000000.002, 0.1 / 0.2 beside 1e6): the class in which an unshifted one-pass
+# variance cancels catastrophically (repaired in /repo b0d9b84)
+PAL_NONF32MIX = PAL_NONF32[::3] + PAL_NONF32BIG + [1000000.001, 1000000.002, 1000000.5, 999999.999, 2000000.001, 2000000.002]
+PAL_INTBIG = [0, 5, -7, 16777217, 16777219, -16777217, 33554433, 33554435, 50331649, 67108865, 83886081, 100000001, 100000003,
+              123456789, -50000001, 16777221, 99999999]
 INT_RANGE = {"int16": (-32768, 32767), "uint8": (0, 255), "uint16": (0, 65535), "int32": (-2 ** 31, 2 ** 31 - 1), "int64": (-2 ** 63, 2 ** 63 - 1)}
 SIDES = [2, 1, 3, 4, 5, 6, 7, 8, 9, 10]        # simplest first: the shrinker ends on a 2x2 / 1xN raster
 POOL_SIZES = [8, 5, 3, 12, 2, 16, 4, 6, 1, 7, 9, 10, 14, 20, 24]
-K_LIST = [4, 3, 5, 2, 6, 7, 8, 9] * 4 + list(range(10, 41))
-KINDS = {"float64": ["dec3", "nonf32", "smallint", "quarters", "signed", "off6", "off6wide", "nonf32big", "dec3"],
+# 23, 31, 36, 51 ... 97: k whose float arange(w, 100+w, w) ends below 100 or has k+1 entries (repaired in /repo 3ae305b)
+K_LIST = [4, 3, 5, 2, 6, 7, 8, 9] * 4 + list(range(10, 41)) + [23, 31, 36, 51, 55, 57, 58, 62, 63, 97]
+KINDS = {"float64": ["dec3", "nonf32", "smallint", "quarters", "signed", "off6", "off6wide", "nonf32big", "nonf32mix", "off6close"],
          "float32": ["dec2_f32", "smallint", "quarters", "signed", "dec2_f32"],
          "int64": ["smallint", "intbig", "signed", "intwide"], "int32": ["smallint", "intbig", "signed", "intwide"],
-         "int16": ["smallint", "signed", "intwide"], "uint8": ["smallint", "intwide"]}
+         "int16": ["smallint", "signed", "intwide", "i16ends"], "uint8": ["smallint", "intwide"]}
 
 
 def _sides(max_side):
@@ -657,6 +620,10 @@ def value_pool(draw, dtype, min_size=1, free=False, kinds=None):
         pool = draw(subset(PAL_NONF32, size))
     elif kind == "nonf32big":
         pool = draw(subset(PAL_NONF32BIG, size))
+    elif kind == "nonf32mix":
+        pool = draw(subset(PAL_NONF32MIX, size))
+    elif kind == "off6close":
+        pool = [1e6 + x / 1000.0 for x in draw(spread_ints(size, 0, 2000))]         # 1e6 + [0, 2]: gaps of 0.001 .. 1
     elif kind == "dec3":
         pool = [x / 1000.0 for x in draw(spread_ints(size, -100000, 100000))]
     elif kind == "off6":
@@ -665,11 +632,14 @@ def value_pool(draw, dtype, min_size=1, free=False, kinds=None):
         pool = [x / 1000.0 + 0.000123 for x in draw(spread_ints(size, 0, 10 ** 9))]
     elif kind == "free":
         pool = draw(st.lists(st.floats(-1e4, 1e4, allow_nan=False, allow_infinity=False, width=64), min_size=size, max_size=size, unique=True))
-        pool = [0.0 if p == 0 else p for p in pool]
+        # 1e-9 grid: distinct values differ by >= 1e-9, so squared gaps stay far from the float64 underflow threshold
+        pool = sorted(set(round(p, 9) + 0.0 for p in pool))
     elif kind == "dec2_f32":
         pool = sorted(set(float(np.float32(x / 100.0)) for x in draw(spread_ints(size, -10000, 10000))))
     elif kind == "intbig":
         pool = draw(subset(PAL_INTBIG, size))
+    elif kind == "i16ends":          # few values at both ends of int16: neighbours further apart than 32767 (repaired /repo 523b20b)
+        pool = draw(subset([-32768, 32767, -30000, 21845, -10923, 32000, 0, 5, -20000, 10000], min(size, 5)))
     else:  # intwide
         lo, hi = INT_RANGE[dtype]
         pool = draw(spread_ints(size, max(lo, -10 ** 9), min(hi, 10 ** 9)))
@@ -720,12 +690,6 @@ def rasters(draw, max_side, dtypes=DTYPES6, need=1, free=False):
     specials = ["nan", "inf", "nan", "-inf"] if dtype.startswith("float") else []
     data = _ensure_distinct(draw(fill(h, w, pool, specials)), pool, need)
     return kind, {"dtype": dtype, "data": data}
-
-
-def _good_k(k):
-    while O.pvec_class(k) != "ok":
-        k += 1
-    return k
 
 
 @st.composite
@@ -839,34 +803,41 @@ def equal_interval_cases(draw, max_side, dtypes=DTYPES6):
 
 @st.composite
 def quantile_cases(draw, max_side, dtypes=DTYPES6):
+    if draw(st.sampled_from([False, False, True])):
+        # all cells distinct: the k percentiles are k distinct breaks even for k far above the pools' 24 values
+        # (with a surplus percentile, /repo 3ae305b, that would be k+1 breaks for k class values)
+        dtype = draw(st.sampled_from(dtypes))
+        h, w = draw(shape(max_side))
+        n = h * w
+        lo, hi = (-100000, 100000) if dtype.startswith("float") else (max(INT_RANGE[dtype][0], -10 ** 6), min(INT_RANGE[dtype][1], 10 ** 6))
+        if hi - lo + 1 < n:
+            h, w, n = 10, 10, 100
+        xs = draw(spread_ints(n, lo, hi))
+        while len(xs) < n:
+            xs.append(xs[-1] + 1 if xs[-1] < hi else min(set(range(lo, hi + 1)) - set(xs)))
+        xs = list(draw(st.permutations(xs)))
+        if dtype == "float64":
+            xs = [x / 1000.0 for x in xs]
+        elif dtype == "float32":
+            xs = [float(np.float32(x / 100.0)) for x in xs]
+        data = [xs[i * w:(i + 1) * w] for i in range(h)]
+        return {"sub": "quantile", "pal": "all_distinct", "raster": {"dtype": dtype, "data": data}, "k": draw(st.sampled_from(K_LIST))}
     kind, spec = draw(rasters(max_side, dtypes=dtypes, need=1, free=True))
-    k = draw(st.sampled_from(K_LIST))
-    case = {"sub": "quantile", "pal": kind, "raster": spec, "k": k}
-    if O.pvec_class(k) != "ok":
-        # recorded defect class (float percentile vector of this k): steer to the next unaffected k, count it
-        case["k_steered_from"] = k
-        case["k"] = _good_k(k)
-    if narrow_int_gap_overflow(dec_arr(spec)):
-        # recorded defect class (int16 raster with neighbours > 32767 apart): halve the values, count it
-        spec["data"] = [[v // 2 for v in row] for row in spec["data"]]
-        case["steered_narrow_int"] = True
-    return case
+    return {"sub": "quantile", "pal": kind, "raster": spec, "k": draw(st.sampled_from(K_LIST))}
 
 
 def _nb_num_sample(draw, case, spec, k):
     size = len(spec["data"]) * len(spec["data"][0])
-    mode = draw(st.sampled_from(["default", "none", "default", "ge", "lt"]))
+    mode = draw(st.sampled_from(["default", "none", "lt", "ge", "lt"]))
     if mode == "none":
         case["num_sample"] = None
     elif mode == "ge":
         case["num_sample"] = size + draw(st.sampled_from([0, 1, 3]))
     elif mode == "lt" and size > 1:
-        ns = 1 + (draw(st.integers(0, size - 2)) + size // 2) % (size - 1)
-        cls = nb_sample_class(dec_arr(spec), k, ns)
-        if cls in ("sample_without_finite_value", "sample_has_lt_k_unique_and_misses_max"):
-            case["ns_steered_from"] = ns         # recorded defect classes: fit on the whole raster instead, count it
-        else:
-            case["num_sample"] = ns
+        # half of the sampled fits use a very small sample (1..3 cells): fewer than k unique values / no finite value at all
+        small = draw(st.sampled_from([False, True]))
+        ns = draw(st.sampled_from([1, 2, 3])) if small else 1 + (draw(st.integers(0, size - 2)) + size // 2) % (size - 1)
+        case["num_sample"] = min(ns, size - 1)
 
 
 @st.composite
@@ -879,7 +850,7 @@ def natural_breaks_cases(draw, max_side, dtypes=DTYPES6):
 
 
 # float64 / wide-integer rasters whose values are NOT representable in float32: the class in which break values stored in
-# single precision (the defect repaired by /repo commit 1450bbf) shows; always fitted on the whole raster
+# single precision (repaired by /repo 1450bbf) and cancelling class variances (repaired by b0d9b84) show; fitted on the whole raster
 @st.composite
 def natural_breaks_nonf32_cases(draw, max_side):
     dtype = draw(st.sampled_from(["float64", "float64", "int64", "float64", "int32"]))
@@ -903,7 +874,7 @@ def natural_breaks_nonf32_cases(draw, max_side):
             case["num_sample"] = None
         return case
     elif dtype == "float64":
-        kind, pool = draw(value_pool(dtype, kinds=["nonf32", "dec3", "off6", "nonf32big", "off6wide", "dec3"]))
+        kind, pool = draw(value_pool(dtype, kinds=["nonf32", "dec3", "off6", "nonf32big", "off6wide", "nonf32mix", "off6close"]))
         specials = ["nan", "inf", "nan", "-inf"]
     else:
         kind, pool = draw(value_pool(dtype, kinds=["intbig"]))
@@ -930,26 +901,34 @@ def sweep_cases(dtype, ns, variants):
                 yield {"sub": "reclass_sweep", "n": n, "variant": v, "dtype": dtype}
 
 
+# ---- regression shards: the minimal inputs of the six defects this check found (all repaired in /repo); they must pass
+
 def quantile_badk_cases():
-    """Dedicated probe of the recorded quantile defect classes (kept tiny; every other generator steers around them)."""
     for k in BAD_K_SHARD_KS:
         yield {"sub": "quantile", "pal": "smallint", "raster": {"dtype": "float64", "data": [[0.0, 1.0, 2.0, 3.0, 4.0]]}, "k": k}
+        yield {"sub": "quantile", "pal": "dec3", "raster": {"dtype": "float64", "data": [[0.3 + 0.1 * i for i in range(12)], [7.7 - 0.1 * i for i in range(12)]]}, "k": k}
 
 
 def quantile_narrow_int_cases():
     yield {"sub": "quantile", "pal": "intwide", "raster": {"dtype": "int16", "data": [[-10923], [21845], [-10923], [21845]]}, "k": 4}
+    yield {"sub": "quantile", "pal": "intwide", "raster": {"dtype": "int16", "data": [[-32768, -30000, 0, 5, 32767, 32000, 1, -1]]}, "k": 3}
 
 
 def nb_cancellation_cases():
-    yield {"sub": "natural_breaks", "pal": "off6", "raster": {"dtype": "float64", "data": [[1000000.001, 1000000.002, 0.0]]}, "k": 3,
-           "probe_cancellation": True}
-    yield {"sub": "natural_breaks", "pal": "intbig", "raster": {"dtype": "int64", "data": [[0, 100000001, 100000003]]}, "k": 3,
-           "probe_cancellation": True}
+    for data, dt in (([[1000000.001, 1000000.002, 0.0]], "float64"), ([[0, 100000001, 100000003]], "int64"),
+                     ([[0, -7, 16777217, 33554433, 100000003, -16777217, 100000001]], "int64"),
+                     ([[94906267.0, 94906265.0, 0.0]], "float64"),
+                     ([[1000000.001, 1000000.002, 1000000.5, 3.0, 2000000.001, 2000000.002]], "float64")):
+        n = len(data[0])
+        for k in range(2, n + 1):
+            yield {"sub": "natural_breaks", "pal": "large_close", "raster": {"dtype": dt, "data": data}, "k": k}
 
 
 def nb_sample_defect_cases():
     yield {"sub": "natural_breaks", "pal": "smallint", "raster": {"dtype": "float64", "data": [[3.0, 0.0]]}, "k": 2, "num_sample": 1}
     yield {"sub": "natural_breaks", "pal": "smallint", "raster": {"dtype": "float64", "data": [[2.0, "nan"]]}, "k": 3, "num_sample": 1}
+    yield {"sub": "natural_breaks", "pal": "smallint", "raster": {"dtype": "float64", "data": [[1.0, 1.0, 1.0, 1.0, 1.0, 1.0, 1.0, 9.0]]}, "k": 3, "num_sample": 2}
+    yield {"sub": "natural_breaks", "pal": "smallint", "raster": {"dtype": "float64", "data": [["nan", "nan", "nan", 5.0, "inf", 7.0]]}, "k": 2, "num_sample": 1}
 
 
 def shards(tier):
@@ -989,14 +968,13 @@ def shards(tier):
             out.append(("sweepdup_%s#%d" % (dt, b), lambda ctx, cases=cases, dt=dt, b=b: drive_enum(
                 ctx, body_reclass_sweep, cases,
                 space="reclassify sweep %s: one duplicated neighbour at every position d, n=%d..%d step %d" % (dt, ns[b], nmax, nblk), size=len(cases))))
-    out.append(("defect_quantile_badk", lambda ctx: drive_enum(ctx, body_quantile, quantile_badk_cases(),
-                                                                space="quantile k in %s (recorded defect classes)" % BAD_K_SHARD_KS, size=len(BAD_K_SHARD_KS), stop_on_first=False)))
-    out.append(("defect_quantile_narrow_int", lambda ctx: drive_enum(ctx, body_quantile, quantile_narrow_int_cases(),
-                                                                      space="quantile int16 neighbour gap > 32767 (recorded defect class)", size=1, stop_on_first=False)))
-    out.append(("defect_nb_cancellation", lambda ctx: drive_enum(ctx, body_natural_breaks, nb_cancellation_cases(),
-                                                                  space="natural_breaks large close values (recorded defect class)", size=2, stop_on_first=False)))
-    out.append(("defect_nb_sample", lambda ctx: drive_enum(ctx, body_natural_breaks, nb_sample_defect_cases(),
-                                                            space="natural_breaks degenerate samples (recorded defect classes)", size=2, stop_on_first=False)))
+    for name, body, gen in (("regress_quantile_badk", body_quantile, quantile_badk_cases),
+                            ("regress_quantile_narrow_int", body_quantile, quantile_narrow_int_cases),
+                            ("regress_nb_cancellation", body_natural_breaks, nb_cancellation_cases),
+                            ("regress_nb_sample", body_natural_breaks, nb_sample_defect_cases)):
+        cases = list(gen())
+        out.append((name, lambda ctx, body=body, cases=cases, name=name: drive_enum(
+            ctx, body, cases, space="%s: minimal inputs of repaired defects" % name, size=len(cases), stop_on_first=False)))
     return out
 
 
